@@ -72,6 +72,32 @@ def c20_csv(opts=None, history="AAB", s="v"):
     return {"violates": bool(bad), "detail": bad}
 
 
+def c20_csv_grouped(opts=None):
+    from flow.record import GroupedRecord, RecordDescriptor, RecordWriter
+
+    opts = dict(opts or {})
+    A = RecordDescriptor("c20/a", [("varint", "n"), ("string", "s")])
+    B = RecordDescriptor("c20/b", [("string", "s"), ("varint", "k")])
+    g = GroupedRecord("c20/grp", [A(n=5, s="mine", _source="first"), B(s="other", k=2, _source="second")])
+    with tempfile.TemporaryDirectory() as td:
+        p = os.path.join(td, "out.csv")
+        q = "&".join(f"{k}={v}" for k, v in opts.items())
+        w = RecordWriter("csvfile://" + p + ("?" + q if q else ""))
+        w.write(g)
+        w.close()
+        with open(p, newline="") as f:
+            rows = list(csv.reader(f))
+    want_head = opts["fields"].split(",") if opts.get("fields") else ["n", "s", "k", "_source", "_classification", "_generated", "_version"]
+    bad = None
+    if len(rows) != 2 or (rows[0] != want_head if opts.get("fields") else (sorted(rows[0]) != sorted(want_head) or [c for c in rows[0] if not c.startswith("_")] != ["n", "s", "k"])):
+        bad = f"rows {rows!r:.300}, expected the header fields {want_head}"
+    else:
+        row = dict(zip(rows[0], rows[1]))
+        if (row["_source"], row["s"], row["n"]) != ("first", "mine", "5"):
+            bad = f"cells _source / s / n are {(row['_source'], row['s'], row['n'])}, the grouped record holds ('first', 'mine', 5)"
+    return {"violates": bool(bad), "detail": bad}
+
+
 def c20_csv_read(s="a", w="b"):
     """CSV with unambiguous content (plain cells, several rows, one delimiter): read back as records with the same text values, for each delimiter"""
     from flow.record import RecordReader
@@ -79,7 +105,7 @@ def c20_csv_read(s="a", w="b"):
     for delim in (",", ";", "\t", "|"):
         with tempfile.TemporaryDirectory() as td:
             p = os.path.join(td, "in.csv")
-            rows = [["name", "2nd", "plain"], [s, "b", "c"], ["", w, "z"], ["n3", "v3", "p3"], ["n4", "v4", "p4"], ["line1\r\nline2", "v5", "p5"], ["n6", "cr\ronly", "lf\nonly"]]
+            rows = [["name", "2nd", "plain"], [s, "b", "c"], ["", w, "z"], ["n3", "v3", "p3"], ["n4", "v4", "p4"], ["line1\r\nline2", "v5", "p5"], ["n6", "cr\ronly", "lf\nonly"], ["", "", ""], ["n8", "", ""]]
             with open(p, "w", newline="") as f:
                 wr = csv.writer(f, delimiter=delim)
                 for row in rows:
@@ -247,4 +273,4 @@ def c20_sweep(seed=0, n=120):
     return {"violates": False, "cases": cases}
 
 
-CALLS = {"c20_csv": c20_csv, "c20_csv_read": c20_csv_read, "c20_line": c20_line, "c20_text": c20_text, "c20_total": c20_total, "c20_sweep": c20_sweep}
+CALLS = {"c20_csv_grouped": c20_csv_grouped, "c20_csv": c20_csv, "c20_csv_read": c20_csv_read, "c20_line": c20_line, "c20_text": c20_text, "c20_total": c20_total, "c20_sweep": c20_sweep}
